@@ -131,8 +131,15 @@ def rule_tables(rep, tier, rid, families):
             seen_enc.add(enc)
             _check_use(rep, rid, m, g, owners, owner, b)
         missing = [o for o, fam in OWNER_FAMILY.items() if fam in families and o not in found]
-        if missing:
-            rep.broken.append("%s: no pre-computed table found for %s in %s" % (rid, missing, b.cfg.name))
+        for o in missing:
+            # an initialiser without a table of its own: it may delegate to a sibling that has one (hash -> xof with
+            # a fixed length) or compute the state with the permutation; the resulting digest is decided by the
+            # mode-level rule of the property, so this is no finding - but at least one table per family member
+            # that is analysed elsewhere must remain, which the floor of the rule checks
+            f = m.funcs.get(o)
+            deleg = sorted(set(c.callee for c in f.calls() if c.callee in found)) if f is not None and not f.decl else []
+            rep.unproved_item(rid, "%s (%s): no pre-computed table of its own%s" % (
+                o, b.cfg.name, "; delegates to " + ", ".join(deleg) if deleg else ""))
     if seen_enc != {"sliced64", "sliced32", "bytes"}:
         rep.broken.append("%s: encodings covered %s, expected all three" % (rid, sorted(seen_enc)))
 
